@@ -98,6 +98,14 @@ class Finder(ast.NodeVisitor):
     def visit_Raise(self, node):
         return  # the arguments of raised exceptions are message texts
 
+    def visit_If(self, node):
+        s, e = self.span(node.test)
+        if all(isinstance(st, ast.Raise) for st in node.body):
+            self.out.append((s, e, "False", "guard dropped (if ...: raise)", node.lineno))   # a validation that never fires
+        else:
+            self.out.append((s, e, "(not (%s))" % self.raw[s:e].decode(), "condition negated", node.lineno))
+        self.generic_visit(node)
+
     def visit_Compare(self, node):
         left = node.left
         for op, right in zip(node.ops, node.comparators):
@@ -177,6 +185,7 @@ def main():
     ap.add_argument("--jobs", type=int, default=8)
     ap.add_argument("--max-per-file", type=int, default=10 ** 9)
     ap.add_argument("--seed", type=int, default=0)
+    ap.add_argument("--only", help="keep only mutants whose description contains one of these comma-separated words (e.g. 'guard,negated')")
     a = ap.parse_args()
     files = anchored_files()
     if a.files:
@@ -185,6 +194,8 @@ def main():
     todo = []
     for f in sorted(files):
         ms = mutants_of(f)
+        if a.only:
+            ms = [m for m in ms if any(w in m["what"] for w in a.only.split(","))]
         rng.shuffle(ms)
         ms = ms[:a.max_per_file]
         print("%s: %d mutants (properties %s)" % (f, len(ms), ",".join(files[f])))
